@@ -17,14 +17,22 @@ import (
 	"golang.org/x/tools/go/packages"
 )
 
-func init() { extraCheckers["c03format"] = checkC03Format }
+func init() {
+	extraCheckers["c03format"] = func(prog *Program, o *CheckOpts) []ExtraResult {
+		return checkFormatTable(prog, o, "C03", "xml", "OSM XML format")
+	}
+	// the same for osmjson: spec/C05.format.json, json struct tags (kind "key")
+	extraCheckers["c05format"] = func(prog *Program, o *CheckOpts) []ExtraResult {
+		return checkFormatTable(prog, o, "C05", "json", "osmjson format")
+	}
+}
 
-func checkC03Format(prog *Program, o *CheckOpts) []ExtraResult {
+func checkFormatTable(prog *Program, o *CheckOpts, prop, tagKey, what string) []ExtraResult {
 	var out []ExtraResult
 	add := func(name, clause string, ok bool, detail string) {
-		out = append(out, ExtraResult{Name: "(schema)C03#format." + name, Kind: "schema", Clause: clause, OK: ok, Engine: "govc-schema", Detail: detail})
+		out = append(out, ExtraResult{Name: "(schema)" + prop + "#format." + name, Kind: "schema", Clause: clause, OK: ok, Engine: "govc-schema", Detail: detail})
 	}
-	raw, err := os.ReadFile(filepath.Join(o.Verif, "spec", "C03.format.json"))
+	raw, err := os.ReadFile(filepath.Join(o.Verif, "spec", prop+".format.json"))
 	if err != nil {
 		add("table", "the format table is readable", false, err.Error())
 		return out
@@ -94,7 +102,7 @@ func checkC03Format(prog *Program, o *CheckOpts) []ExtraResult {
 			tag, found := "", false
 			for i := 0; i < st.NumFields(); i++ {
 				if st.Field(i).Name() == fname {
-					tag, found = reflect.StructTag(st.Tag(i)).Get("xml"), true
+					tag, found = reflect.StructTag(st.Tag(i)).Get(tagKey), true
 				}
 			}
 			parts := strings.Split(tag, ",")
@@ -105,8 +113,8 @@ func checkC03Format(prog *Program, o *CheckOpts) []ExtraResult {
 				}
 			}
 			n++
-			okTag := found && parts[0] == want[1] && isAttr == (want[0] == "attr")
-			add(tn+"."+fname, fmt.Sprintf("%s.%s is decoded from the %s %q of the OSM XML format", tn, fname, map[string]string{"attr": "attribute", "elem": "child element"}[want[0]], want[1]), okTag, fmt.Sprintf("struct tag `xml:%q`", tag))
+			okTag := found && parts[0] == want[1] && (want[0] == "key" || isAttr == (want[0] == "attr"))
+			add(tn+"."+fname, fmt.Sprintf("%s.%s is the %s %q of the %s", tn, fname, map[string]string{"attr": "attribute", "elem": "child element", "key": "key"}[want[0]], want[1], what), okTag, fmt.Sprintf("struct tag `%s:%q`", tagKey, tag))
 		}
 	}
 	add("count", "the format table has entries", n > 0, fmt.Sprintf("%d fields compared", n))
